@@ -235,4 +235,15 @@ theorem snd_eq_of_fst_nodup {α β : Type} {l : List (α × β)} (h : (l.map (·
       · exfalso; apply h.1; rw [← e2]; exact List.mem_map.mpr ⟨(a, b), m1, rfl⟩
       · exact ih h.2 m1 m2
 
+theorem nodup_of_nodup_map {α β : Type} (f : α → β) :
+    ∀ l : List α, (l.map f).Nodup → l.Nodup := by
+  intro l
+  induction l with
+  | nil => intro _; simp
+  | cons a r ih =>
+    intro h
+    rw [List.map_cons, List.nodup_cons] at h
+    rw [List.nodup_cons]
+    exact ⟨fun hm => h.1 (List.mem_map.mpr ⟨a, hm, rfl⟩), ih h.2⟩
+
 end DD
